@@ -1,5 +1,6 @@
 //! Channels of the line protocol (DESIGN Appendix B).
 pub mod store;
+pub mod trav;
 
 pub fn respond(line: &str) -> String {
     let (head, rest) = match line.find(' ') {
@@ -9,6 +10,7 @@ pub fn respond(line: &str) -> String {
     match head {
         "store" => store::store(rest),
         "storef" => store::storef(rest),
+        "trav" => trav::trav(rest),
         _ => "bad-request".to_string(),
     }
 }
